@@ -4,6 +4,7 @@ CONSTANTS
   Brushes = { "d2" }
   Levels <- NegPos
   Variant = "ignore_impossible"
+  DesignSet <- AllLevels
 INVARIANT TypeOK
 INVARIANT NoConflict
 INVARIANT PostCondition
